@@ -23,6 +23,7 @@ Calls ==
   \cup {<<h, k, c, Cur>> : h \in {"get", "head"}, k \in Keys, c \in {"none", "if_match_star", "if_none_match_star"}}
   \cup {<<h, k, c, ref>> : h \in {"get", "head"}, k \in Keys, c \in {"if_match", "if_none_match"}, ref \in Refs}
   \cup {<<"delete", k>> : k \in Keys}
+  \cup {<<"mput", k, 2>> : k \in Keys} \cup {<<"mabort", k>> : k \in Keys}
   \cup {<<"copy", q[1], q[2], m>> : q \in Distinct, m \in Modes}
   \cup {<<"rename", a, b, m>> : a \in Keys, b \in Keys, m \in Modes}
 
@@ -32,6 +33,7 @@ ConcCalls ==
   \cup {<<"put", k, 2, "update", Cur>> : k \in Keys}
   \cup {<<h, k, c, Cur>> : h \in {"get", "head"}, k \in Keys, c \in {"none", "if_match", "if_none_match"}}
   \cup {<<"delete", k>> : k \in Keys}
+  \cup {<<"mput", k, 1>> : k \in Keys}
   \cup {<<"copy", q[1], q[2], "overwrite">> : q \in Distinct}
   \cup {<<"rename", q[1], q[2], "overwrite">> : q \in Distinct}
 
